@@ -625,7 +625,11 @@ func (C17) pure(tp *tape.Tape) core.Result {
 			if _, _, stop := step("gs = read()"); stop {
 				goto done
 			}
-			o3, _, stop := step("write(aton(gs[0:#gs - 1]) == gv)")
+			// whether read() keeps the line break is not documented: strip it only if it is there
+			if _, _, stop := step("chomp = (s) -> {\nn = #s\nif n == 0 {\nreturn s\n}\nk = n - 1\nc = s[k]\nif c == \"\\n\" {\ns[0:k]\n} else {\ns\n}\n}"); stop {
+				goto done
+			}
+			o3, _, stop := step("write(aton(chomp(gs)) == gv)")
 			if stop {
 				goto done
 			}
